@@ -120,6 +120,8 @@ macro_rules! plain_laws {
                 let r = key(ca).cmp(&key(cb));
                 ensure_eq!(c, r, "{}: cmp vs (block size, block hash 1, block hash 2) lexicographic order [{} / {}]", $tyname, ca.text(), cb.text());
                 ensure_eq!(must("partial_cmp", || a.partial_cmp(b))?, Some(r), "{}: partial_cmp [{} / {}]", $tyname, ca.text(), cb.text());
+                let ops = must("< <= > >=", || (a < b, a <= b, a > b, a >= b))?;
+                ensure_eq!(ops, (r == Ordering::Less, r != Ordering::Greater, r == Ordering::Greater, r != Ordering::Less), "{}: operators < <= > >= vs the documented order [{} / {}]", $tyname, ca.text(), cb.text());
                 ensure_eq!(c == Ordering::Equal, eq, "{}: cmp == Equal vs == [{} / {}]", $tyname, ca.text(), cb.text());
                 ensure_eq!(must("cmp", || b.cmp(a))?, c.reverse(), "{}: antisymmetry [{} / {}]", $tyname, ca.text(), cb.text());
                 ensure_eq!(must("cmp_by_block_size", || a.cmp_by_block_size(b))?, ca.log.cmp(&cb.log), "{}: cmp_by_block_size", $tyname);
@@ -169,6 +171,10 @@ macro_rules! dual_laws {
                 ensure_eq!(c, c2, "{}: cmp is not repeatable", stringify!($dual));
                 ensure_eq!(must("cmp", || b.cmp(a))?, c.reverse(), "{}: antisymmetry [{} / {}]", stringify!($dual), ha.text(), hb.text());
                 ensure_eq!(c == Ordering::Equal, eq, "{}: cmp == Equal vs == [{} / {}]", stringify!($dual), ha.text(), hb.text());
+                // one order, however it is asked for: partial_cmp and the comparison operators are that same total order
+                ensure_eq!(must("partial_cmp", || a.partial_cmp(b))?, Some(c), "{}: partial_cmp vs cmp [{} / {}]", stringify!($dual), ha.text(), hb.text());
+                let ops = must("< <= > >=", || (a < b, a <= b, a > b, a >= b))?;
+                ensure_eq!(ops, (c == Ordering::Less, c != Ordering::Greater, c == Ordering::Greater, c != Ordering::Less), "{}: operators < <= > >= vs cmp [{} / {}]", stringify!($dual), ha.text(), hb.text());
                 let (na, nb) = (ha.collapsed(), hb.collapsed());
                 if na != nb {
                     let r = key(&na).cmp(&key(&nb));
